@@ -20,13 +20,13 @@ CLAIMED = {
             'Every sample handed to the running cost has the right segment index, local time (k/K)T_i, global time t0+sum T_j+t, and p,v,a,j,s equal to derivatives 0..4 of the published piece at t; K+1 calls per segment; cost == time cost + waypoint cost + trapezoid sum + rho*energy (energy term iff rho > 0); time/waypoint functors receive the decoded durations/waypoints and are called once; 2-cost overload makes no waypoint call.',
             'K in {1,2,3,5,64} quick; N<=3; DIM<=2 quick'),
     'C09': ('s5/C09', TECH + 'independent reference layout function; UF node identity for pinning and block placement; Real interpretation for map formulas and the initial-guess round trip; reconfiguration histories vs a fresh optimizer',
-            'getDimension, the initial-guess size and the gradient size equal the reference total for all 256 flag settings; decoded durations == toTime(x_i), optimised waypoints == toPhysical(x block at the reference offset), flagged boundary blocks == x blocks at the reference offsets, everything else node-identical to the reference state; decode(generateInitialGuess()) == reference; after every reconfiguration history up to length 2 (3 thorough) all observables equal those of a fresh optimizer configured directly.',
+            'getDimension, the initial-guess size and the gradient size equal the reference total for all 256 flag settings; decoded durations == toTime(x_i), optimised waypoints == toPhysical(x block at the reference offset), flagged boundary blocks == x blocks at the reference offsets, everything else node-identical to the reference state; decode(generateInitialGuess()) == reference; after every reconfiguration history up to length 3 (4 thorough) all observables equal those of a fresh optimizer configured directly; time-point initialisation.',
             'orders 3/5/7, N 1..3 (6 thorough), DIM 1..2 (3 thorough); round trip assumes reference durations >= 1 ms'),
     'C12': ('s5/C12', TECH + 'permuting and nesting executors; UF / node identity of cost, gradient and of every argument handed to the user functors against SerialExecutor with a fresh workspace',
             'SCHEDULE INDEPENDENCE ONLY: for all permutations of the per-segment tasks (N<=4; N=5,6 sampled), for OpenMPExecutor (serial fallback), for the first call on a freshly configured optimizer, and for an evaluation interrupted after 0..N segment tasks by a complete second evaluation on the same optimizer with a private workspace, cost, gradient and all functor arguments are node-identical (bit-identical) to undisturbed serial evaluation. Freedom from data races under real threads is NOT decided by this technique.',
             'half of the property: thread-level data races (e.g. the lazy layout cache written from const evaluate) are outside the claim - DESIGN s5/C12, s8'),
     'C10': ('s5/C10', TECH + 'UF / node identity between a reused object (history of updates with fresh or partially shared symbolic inputs, interleaved queries; POISON for uninitialised dynamic buffers) and a freshly constructed one',
-            'After every history of up to 3 updates over sizes {1,2,3,4} (both overloads, with and without interleaved energy / gradient / propagation / evaluation queries), and after every re-update that keeps any subset of {durations, waypoints, start time, boundary state}, all observables (coefficients, bookkeeping, energy, energy gradients, partials, propagateGrad, evaluations) are node-identical to a fresh object and unchanged by repeating the queries; optimizer evaluations with an explicit or built-in workspace reused across problems, sizes, flag sets and optimizers are node-identical (cost, gradient, functor arguments, workspace spline) to evaluations with a fresh workspace.',
+            'After every history of up to 3 updates over sizes {1,2,3,4} (both overloads, with and without interleaved energy / gradient / propagation / evaluation queries), after every re-update that keeps any subset of {durations, waypoints, start time, boundary state}, and after three-step histories that mix such sharing with overload switches, all observables (coefficients, bookkeeping, energy, energy gradients, partials, propagateGrad, evaluations) are node-identical to a fresh object and unchanged by repeating the queries; optimizer evaluations with an explicit or built-in workspace reused across problems, sizes, flag sets and optimizers are node-identical (cost, gradient, functor arguments, workspace spline) to evaluations with a fresh workspace.',
             'histories <= 3, N <= 4, DIM <= 2 (quick)'),
     'C11': ('s5/C11', TECH + 'UF / node identity with fresh variables per update and POISON for uninitialised buffers; histories enumerated exhaustively to length 3',
             'After every operation sequence up to length 3 over {evaluate order 0/1/2, global evaluate, update same shape / other segment count / other coefficient count, rejected update, copy, assign over a warm object, derivative()} every evaluation and derivative trajectory of every live object is node-identical to a fresh object built from the data it must reflect; spline trajectories after update (both overloads) equal a fresh spline and earlier copies keep the old data.',
@@ -47,7 +47,7 @@ CLAIMED = {
             'For symbolic start <= end and dt > 0 and every step count 0..6: first sample == start, sample i == start + i dt, strictly increasing, no sample beyond end + 1e-6, end appended iff the last regular sample is more than 1e-6 short, last element within 1e-6 of end; batch == pointwise; getTrajectoryLength == left Riemann sum of ||v|| over the generated sequence; zero()/constant() factories initialised on the given breakpoints with the specified values at every t and order.',
             'exact-real reading: IEEE floor/rounding edge cases and step counts > 6 (incl. int overflow) are outside the claim'),
     'C04': ('s5/C04', TECH + 'Real interpretation with cut at published coefficients/durations',
-            'getEnergy equals the exact integral of the squared s-th derivative for EVERY coefficient set and every positive duration (cut points), on all construction/update routes incl. re-fit after an energy query; non-negativity of the closed form for N=1.',
+            'getEnergy equals the exact integral of the squared s-th derivative for EVERY coefficient set and every positive duration (cut points), on all construction/update routes incl. re-fit after an energy query and on recorded paths selected by very short / very long durations; non-negativity of the closed form for N=1.',
             'as C01; sizes N<=3(4), DIM<=3(4,10)'),
     'C05': ('s5/C05', TECH + 'Real interpretation + exact forward-mode AD of the recorded construction DAG; UF for history independence',
             'propagateGrad equals J^T g with the Jacobian taken by AD of the real construction code, for every data value and every upstream-gradient entry (all symbolic), for all positive durations up to the T-all caps and for grid duration vectors beyond; value and reference overloads; independence of earlier calls and of reused output structs (node identity).',
@@ -59,7 +59,7 @@ CLAIMED = {
             'D-dimensional coefficients, evaluations, propagated and energy point/boundary gradients are node-identical (bit-identical) or exactly equal to those of the 1-D splines of each coordinate; energy and duration gradients are the sums; coordinate permutations permute outputs. D in {2,3,4(,10)}.',
             'as C01'),
     'C14': ('s5/C14', TECH + 'Real interpretation for the scaling/translation/reversal relations, UF for start-time independence',
-            'Shift, translation, data scaling, time scaling and time reversal relations on coefficients (via all Taylor coefficients of every piece), energy and energy gradients, with symbolic shift / translation / scale factors; the transformed problem is also applied by re-updating the original object.',
+            'Shift, translation, data scaling, time scaling and time reversal relations on coefficients (via all Taylor coefficients of every piece), energy, energy gradients and propagateGrad(energy partials), DIM 1/2/4, with symbolic shift / translation / scale factors; the transformed problem is also applied by re-updating the original object.',
             'as C01'),
 }
 QUICK = './check %s --tier quick'
